@@ -4,12 +4,13 @@
 ID=$1; shift
 R=/tmp/seedrepo/$ID
 rm -rf "$R"; mkdir -p "$R"; rsync -a --exclude target --exclude .git /repo/ "$R"/
-( cd "$R" && git init -q . && git apply /verif/seeded/$ID/patch.diff ) || { echo "patch does not apply"; exit 2; }
+HERE=$PWD
+( cd "$R" && git init -q . && git apply $HERE/seeded/$ID/patch.diff ) || { echo "patch does not apply"; exit 2; }
 export VERIF_REPO=$R VERIF_EVID_DIR=/tmp/seedrepo/ev.$ID VERIF_REPLAY_DIR=/tmp/seedrepo/rp.$ID
 mkdir -p $VERIF_EVID_DIR $VERIF_REPLAY_DIR
 for c in "$@"; do
   echo "=== $c with seed $ID (tier ${TIER:-quick})"
-  /verif/bin/vcheck $c --tier ${TIER:-quick} 2>&1 | grep -E "VIOLATION|KNOWN-FINDING|UNDECIDED|failed|unknown|tier="
+  bin/vcheck $c --tier ${TIER:-quick} 2>&1 | grep -E "VIOLATION|KNOWN-FINDING|UNDECIDED|failed|unknown|tier="
   echo "exit=${PIPESTATUS[0]}"
 done
 rm -rf "$R"
